@@ -605,7 +605,13 @@ func (R *Repository) DeleteTempFilesIfExist() {
 	if err != nil {
 		R.logger.Warn(fmt.Sprintf("Error while cleaning temp directory %s: %v", R.crlConfig.WorkDir, err))
 	}
-	err = filepath.Walk(R.crlConfig.WorkDir, func(path string, info os.FileInfo, err error) error {
+	//the work dir may be a symbolic link to the directory: Walk does not follow a link it is started with
+	workDir := R.crlConfig.WorkDir
+	resolvedWorkDir, resolveErr := filepath.EvalSymlinks(workDir)
+	if resolveErr == nil {
+		workDir = resolvedWorkDir
+	}
+	err = filepath.Walk(workDir, func(path string, info os.FileInfo, err error) error {
 		if err != nil {
 			return err
 		}
